@@ -464,7 +464,10 @@ B_NAMES = ["id", "name", "description", "title", "example", "labels", "kind", "c
 
 def b_prim(rnd):
     return rnd.choice([{"type": "string"}, {"type": "integer"}, {"type": "boolean"}, {"type": "string", "enum": ["a", "b", "c"]},
-                       {"type": "array", "items": {"type": "string"}}, {"type": "object", "additionalProperties": {"type": "integer"}}])
+                       {"type": "array", "items": {"type": "string"}}, {"type": "object", "additionalProperties": {"type": "integer"}},
+                       # type SETS: several scalar types, with and without null
+                       {"type": ["string", "integer", "null"]}, {"type": ["boolean", "number", "null"]}, {"type": ["string", "integer"]},
+                       {"type": "object", "additionalProperties": {"type": ["boolean", "number", "null"]}}, {"type": "array", "items": {"type": ["string", "integer", "null"]}}])
 
 
 def b_object(rnd, names, closed_p=0.2, depth=0):
@@ -513,6 +516,14 @@ def b_components(rnd):
         b["properties"][extra] = {"type": "string"}
     root_props["first"] = a
     root_props["second"] = b
+    if rnd.random() < 0.5:
+        R_ = lambda t: f"#/components/schemas/{t}"
+        comps["Kitty"] = {"type": "object", "required": ["petType"], "properties": {"petType": {"type": "string", "enum": ["cat", "kitten"]}, "lives": {"type": "integer"}}}
+        comps["Doggo"] = {"type": "object", "required": ["petType"], "properties": {"petType": {"type": "string", "enum": ["dog", "puppy"]}, "bark": {"type": "boolean"}}}
+        comps["Pet"] = {"oneOf": [{"$ref": R_("Kitty")}, {"$ref": R_("Doggo")}],
+                        "discriminator": {"propertyName": "petType", "mapping": {"cat": R_("Kitty"), "kitten": R_("Kitty"), "dog": R_("Doggo"), "puppy": R_("Doggo")}}}
+        root_props["pet"] = {"$ref": R_("Pet")}
+        root_props["pets"] = {"type": "array", "items": {"$ref": R_("Pet")}}
     comps["Root"] = {"type": "object", "properties": root_props}
     return comps
 
@@ -537,7 +548,28 @@ def b_resolve(s, comps, seen=()):
     return props, req, addl
 
 
+def b_union(s, comps):
+    """(variants, discriminator) if s (through $ref) is a oneOf/anyOf union"""
+    seen = 0
+    while isinstance(s, dict) and "$ref" in s and seen < 10:
+        s = comps.get(s["$ref"].split("/")[-1], {})
+        seen += 1
+    if isinstance(s, dict) and (s.get("oneOf") or s.get("anyOf")):
+        return (s.get("oneOf") or s.get("anyOf")), s.get("discriminator")
+    return None
+
+
 def b_instance(rnd, s, comps, depth=0):
+    u = b_union(s, comps)
+    if u:
+        vs, disc = u
+        v = rnd.choice(vs)
+        inst = b_instance(rnd, v, comps, depth + 1)
+        if disc and disc.get("mapping") and isinstance(inst, dict) and "$ref" in v:
+            keys = [k for k, r in disc["mapping"].items() if r == v["$ref"]]
+            if keys:
+                inst[disc["propertyName"]] = rnd.choice(keys)
+        return inst
     if "$ref" in s or "allOf" in s or s.get("type") == "object":
         if s.get("type") == "object" and "properties" not in s and "allOf" not in s:
             ap = s.get("additionalProperties")
@@ -551,6 +583,12 @@ def b_instance(rnd, s, comps, depth=0):
     t = s.get("type")
     if "enum" in s:
         return rnd.choice(s["enum"])
+    if isinstance(t, list):
+        t = rnd.choice(t)
+        if t == "null":
+            return None
+        if t == "number":
+            return rnd.choice([0.25, 2, -1.5])
     if t == "string":
         return rnd.choice(["x", "", "hello"])
     if t == "integer":
@@ -574,7 +612,7 @@ def b_mutants(rnd, s, comps, inst):
     for nm, ps in props.items():
         if nm in inst:
             pt = ps.get("type") if "$ref" not in ps and "allOf" not in ps else "object"
-            wrong = {"string": 5, "integer": "five", "boolean": "yes", "array": {"a": 1}, "object": [1]}.get(pt)
+            wrong = {"string": 5, "integer": "five", "boolean": "yes", "array": {"a": 1}, "object": [1]}.get(pt) if isinstance(pt, str) else None
             if wrong is not None:
                 c = dict(inst)
                 c[nm] = wrong
@@ -601,6 +639,12 @@ def b_norm(x):
 
 def b_project(s, comps, x):
     """keep declared members only (undeclared ones are legitimately dropped by the generated structs)"""
+    u = b_union(s, comps)
+    if u and isinstance(x, dict):
+        vs, disc = u
+        if disc and disc.get("mapping") and x.get(disc["propertyName"]) in disc["mapping"]:
+            return b_project({"$ref": disc["mapping"][x[disc["propertyName"]]]}, comps, x)
+        return x
     if isinstance(x, dict) and ("$ref" in s or "allOf" in s or "properties" in s):
         props, req, addl = b_resolve(s, comps)
         return {k: b_project(props[k], comps, v) for k, v in x.items() if k in props and v is not None}
